@@ -998,6 +998,8 @@ struct Facts {
 	hint_used: bool,
 	blinded_used: bool,
 	known_underpaid: bool,
+	known_pathlen: bool,
+	known_maxround: bool,
 }
 
 /// Development aid only (default off): `C16_DEV_SKIP_KNOWN=lifted,overflow` turns the two exactly-keyed
@@ -1079,7 +1081,9 @@ fn validate(w: &World, r: &Route) -> Result<Facts, Failure> {
 		if hops.is_empty() {
 			return Err(fail("empty-path", format!("path {} has no hops", pi)));
 		}
-		if hops.len() > w.max_len as usize {
+		if hops.len() > w.max_len as usize && dev_skip("pathlen") {
+			facts.known_pathlen = true;
+		} else if hops.len() > w.max_len as usize {
 			return Err(fail("path-length", format!("path {} has {} hops, max_path_length {}", pi, hops.len(), w.max_len)));
 		}
 		facts.max_hops = facts.max_hops.max(hops.len());
@@ -1263,7 +1267,17 @@ fn validate(w: &World, r: &Route) -> Result<Facts, Failure> {
 	// maximum / capacity, per part and jointly over the parts sharing an edge. Where a later edge's
 	// htlc_minimum lifted the amount, the property tolerates the excess: the check then uses the
 	// amount the edge would carry without that lift.
-	let mut joint: BTreeMap<EdgeKey, (u128, u64, usize)> = BTreeMap::new();
+	// `shaved(p, k)`: what edge k of path p would carry (fees only) if the path delivered a few msat less;
+	// used to give excesses that are pure integer-rounding artefacts their own key.
+	let shaved = |p: &VPath, k: usize| -> u128 {
+		let m = p.edges.len();
+		let mut c: u128 = (p.amt[m - 1] as u128).saturating_sub(2 + m as u128);
+		for j in (k..m - 1).rev() {
+			c += fee_of(&p.edges[j + 1].pol, c.min(u64::MAX as u128) as u64);
+		}
+		c
+	};
+	let mut joint: BTreeMap<EdgeKey, (u128, u64, usize, u128)> = BTreeMap::new();
 	for (pi, p) in vps.iter().enumerate() {
 		let m = p.edges.len();
 		let last_lifted = overpay > 0 && p.amt[m - 1] == p.edges[m - 1].pol.min;
@@ -1281,19 +1295,37 @@ fn validate(w: &World, r: &Route) -> Result<Facts, Failure> {
 				c.max(e.pol.min as u128)
 			};
 			if counted > e.pol.max as u128 {
-				return Err(fail("htlc-maximum", format!("path {} edge {} ({:?}) carries {} (counted {}) > htlc_maximum {}", pi, k, e.key, p.amt[k], counted, e.pol.max)));
+				let detail = format!("path {} edge {} ({:?}) carries {} (counted {}) > htlc_maximum {}", pi, k, e.key, p.amt[k], counted, e.pol.max);
+				// gone when the path delivers a few msat less: own key (integer rounding, see report)
+				if shaved(p, k) <= e.pol.max as u128 {
+					if dev_skip("maxround") {
+						facts.known_maxround = true;
+						continue;
+					}
+					return Err(Failure::new("htlc-maximum", detail).with_key("validator/htlc-maximum/off-by-rounding"));
+				}
+				return Err(fail("htlc-maximum", detail));
 			}
 			if e.pol.max < u64::MAX && counted * 100 >= e.pol.max as u128 * 99 {
 				facts.near_binding = true;
 			}
-			let ent = joint.entry(e.key).or_insert((0, e.joint, 0));
+			let ent = joint.entry(e.key).or_insert((0, e.joint, 0, 0));
 			ent.0 += counted;
 			ent.2 += 1;
+			ent.3 += shaved(p, k).min(counted);
 		}
 	}
-	for (key, (used, limit, parts)) in joint.iter() {
+	for (key, (used, limit, parts, used_shaved)) in joint.iter() {
 		if *used > *limit as u128 {
-			return Err(fail("joint-capacity", format!("{} part(s) over {:?} carry {} together, limit {}", parts, key, used, limit)));
+			let detail = format!("{} part(s) over {:?} carry {} together, limit {}", parts, key, used, limit);
+			if *used_shaved <= *limit as u128 {
+				if dev_skip("maxround") {
+					facts.known_maxround = true;
+					continue;
+				}
+				return Err(Failure::new("joint-capacity", detail).with_key("validator/joint-capacity/off-by-rounding"));
+			}
+			return Err(fail("joint-capacity", detail));
 		}
 		if *parts > 1 {
 			facts.shared_edge = true;
@@ -1486,8 +1518,8 @@ fn oracle(c: &Case, ctx: &mut Ctx) -> CaseResult {
 	build_history(g, &ends, &c.hist, &mut prob);
 	let prob_params = ProbabilisticScoringFeeParameters::default();
 	ctx.sub_evaluations(c.qs.len() as u64);
-	let dev_skip_pathlen = dev_skip("pathlen");
-	let dev_skip = dev_skip("overflow");
+	let skip_pathlen = dev_skip("pathlen");
+	let skip_overflow = dev_skip("overflow");
 
 	for (qi, q) in c.qs.iter().enumerate() {
 		let (w, inp) = resolve(g, &ends, &chans, &node_mpp, q);
@@ -1510,14 +1542,28 @@ fn oracle(c: &Case, ctx: &mut Ctx) -> CaseResult {
 				// One library debug assertion (compiled out of production builds) is known to be
 				// reachable: the liquidity bookkeeping after a path was lifted to an htlc_minimum. The
 				// property tolerates that excess, so this is counted, not asserted (see report).
-				if msg.contains("used_liquidity_msat <= hop_max_msat") {
-					ctx.label("lib-debug-assert/used-liquidity-exceeds-hop-max(not asserted)");
-					continue;
+				// Two library debug assertions (compiled out of production builds) guard the liquidity
+				// bookkeeping. A build without debug assertions showed that where they fire the returned
+				// route exceeds a maximum (see report), so they count as the library's own tripwire for
+				// the same clause and get exact keys.
+				let tripwire = if msg.contains("used_liquidity_msat <= hop_max_msat") {
+					Some("used-liquidity-exceeds-hop-max")
+				} else if msg == "assertion failed: false" && loc.contains("routing/router.rs") {
+					Some("max-final-value-branch-claimed-unreachable")
+				} else {
+					None
+				};
+				if let Some(t) = tripwire {
+					if dev_skip("dbgassert") {
+						ctx.label(&format!("DEV-SKIPPED-lib-tripwire/{}", t));
+						continue;
+					}
+					return Err(Failure::new("lib-tripwire", format!("query {}: library debug assertion at {} fired inside find_route: {}", qi, loc, msg)).with_key(format!("lib-tripwire/{}", t)));
 				}
 				// The library's own test-build detector for an over-long path (production builds log and
 				// return the route): same clause as the validator's `path-length`.
 				if msg.starts_with("Path had a length of") {
-					if dev_skip_pathlen {
+					if skip_pathlen || dev_skip("stale") {
 						ctx.label("DEV-SKIPPED-path-length(lib self-check)");
 						continue;
 					}
@@ -1540,10 +1586,28 @@ fn oracle(c: &Case, ctx: &mut Ctx) -> CaseResult {
 		}
 		match res {
 			Ok(route) => {
-				let facts = validate(&w, &route).map_err(|mut f| {
-					f.detail = format!("query {}: {} | route: {:?}", qi, f.detail, route.paths);
-					f
-				})?;
+				let facts = match validate(&w, &route) {
+					Ok(facts) => facts,
+					Err(mut f) => {
+						// Signature of one mechanism (see report): a first-hop peer that is also the
+						// introduction node of a supplied blinded path, and a path that continues from
+						// that peer over further channels.
+						let stale_sig = w.first.is_some()
+							&& match &w.payee {
+								MPayee::Blinded { paths } => route.paths.iter().any(|p| p.hops.len() >= 2 && paths.iter().any(|b| b.intro == NodeId::from_pubkey(&p.hops[0].pubkey))),
+								_ => false,
+							};
+						if stale_sig && !f.key.contains("final-hop-lifted") {
+							if dev_skip("stale") {
+								ctx.label(&format!("DEV-SKIPPED-{}/first-hop-peer-is-blinded-intro", f.oracle));
+								continue;
+							}
+							f.key = format!("{}/first-hop-peer-is-blinded-intro", f.key);
+						}
+						f.detail = format!("query {}: {} | route: {:?}", qi, f.detail, route.paths);
+						return Err(f);
+					},
+				};
 				ctx.label("ok");
 				ctx.label_if(facts.paths > 1, "ok/multi-path");
 				ctx.label_if(facts.shared_edge, "ok/shared-edge");
@@ -1556,6 +1620,8 @@ fn oracle(c: &Case, ctx: &mut Ctx) -> CaseResult {
 				ctx.label_if(facts.first_hop_used, "ok/via-first-hop");
 				ctx.label_if(facts.hint_used, "ok/via-hint");
 				ctx.label_if(facts.blinded_used, "ok/blinded-tail");
+				ctx.label_if(facts.known_maxround, "ok/DEV-SKIPPED-maximum-exceeded-by-rounding");
+				ctx.label_if(facts.known_pathlen, "ok/DEV-SKIPPED-path-length");
 				ctx.label_if(facts.known_underpaid, "ok/DEV-SKIPPED-known-fee-underpaid-final-hop-lifted");
 				let nt = (facts.max_hops >= 2 && facts.near_binding) || facts.shared_edge;
 				ctx.label_if(nt, "nontrivial-query");
@@ -1576,15 +1642,36 @@ fn oracle(c: &Case, ctx: &mut Ctx) -> CaseResult {
 					match (narrow, any) {
 						(_, Some(_)) if w.allow_mpp => ctx.label("slack/err-with-reference-path-but-mpp-allowed(not asserted)"),
 						(Some((len, desc)), _) => {
+							// same mechanism as in the validity part: a first-hop peer is also a blinded intro node
+							let stale_sig = match (&w.first, &w.payee) {
+								(Some(first), MPayee::Blinded { paths }) => first.iter().any(|fh| paths.iter().any(|b| b.intro == fh.peer)),
+								_ => false,
+							};
+							if stale_sig && dev_skip("stale") {
+								ctx.label("slack/DEV-SKIPPED-err/first-hop-peer-is-blinded-intro");
+								continue;
+							}
+							// "sufficient route": the router did find a path but what it could carry fell short
+							let found_short = e.starts_with("Failed to find a sufficient route");
+							if !stale_sig && found_short && dev_skip("insufficient") {
+								ctx.label("slack/DEV-SKIPPED-err/found-path-insufficient");
+								continue;
+							}
 							return Err(Failure::new(
 								"completeness",
 								format!("query {}: find_route failed with {:?} although a single path of {} edges has strong slack for {} msat (no fee/CLTV cap, nothing excluded, zero-penalty scorer); reference edges (scid, min, limit, base, ppm): {}", qi, e, len, w.amount, desc),
 							)
-							.with_key("completeness"));
+							.with_key(if stale_sig {
+								"completeness/first-hop-peer-is-blinded-intro"
+							} else if found_short {
+								"completeness/found-path-insufficient"
+							} else {
+								"completeness/no-path-found"
+							}));
 						},
 						(None, Some((len, desc))) => {
 							// every strong-slack path needs a fee product amount*ppm beyond 64 bits
-							if dev_skip {
+							if skip_overflow {
 								ctx.label("slack/DEV-SKIPPED-err-fee-product-beyond-u64");
 							} else {
 								return Err(Failure::new(
